@@ -643,6 +643,58 @@ fn recreate_loop(rep: &mut Rep, seed: u64, cycles: usize) {
         }
         drop(r);
     }
+    // hostile variant: the previous instance is still alive in another thread and is dropped only X ms after the
+    // new open has started (a destructor still running); the open must wait and then see the model's state
+    for (k, hold_ms) in [5u64, 40, 150, 400, 700].iter().enumerate() {
+        if cycles < 30 && k >= 4 {
+            break;
+        }
+        let r = match catch(|| RLN::new(depth, Cursor::new(cfg.clone()))) {
+            Ok(Ok(r)) => r,
+            _ => {
+                rep.violation("recreate:open-failed-right-after-drop", json!({"leg": "hostile-setup"}));
+                break;
+            }
+        };
+        let mut r = r;
+        let i = rng.gen_range(0..(1usize << depth));
+        let v = rand_fr(&mut rng);
+        if r.set_leaf(i, Cursor::new(enc_fr(&v))).is_ok() {
+            m.set(i, v);
+        }
+        let _ = r.flush();
+        let hold = *hold_ms;
+        let holder = std::thread::spawn(move || {
+            std::thread::sleep(std::time::Duration::from_millis(hold));
+            drop(r);
+        });
+        let t0 = std::time::Instant::now();
+        let r2 = catch(|| RLN::new(depth, Cursor::new(cfg.clone())));
+        let el = t0.elapsed().as_millis();
+        let _ = holder.join();
+        rep.ev();
+        rep.stratum(format!("recreate-while-previous-alive|hold={hold_ms}ms"));
+        match r2 {
+            Ok(Ok(mut r2)) => {
+                let mut root = vec![];
+                let _ = r2.get_root(&mut root);
+                if dec_frs(&root, 1).map(|v| v[0]) != Some(m.root()) || r2.leaves_set() != m.mark {
+                    rep.violation("recreate-while-previous-alive:state-lost-or-changed", json!({"hold_ms": hold_ms, "elapsed_ms": el as u64, "model_count": m.mark, "count": r2.leaves_set()}));
+                    break;
+                }
+                rep.count("recreate_while_previous_alive_ok");
+            }
+            Ok(Err(e)) => {
+                rep.violation("recreate-while-previous-alive:open-failed", json!({"hold_ms": hold_ms, "elapsed_ms": el as u64, "error": e.to_string().lines().next().unwrap_or("").to_string()}));
+                break;
+            }
+            Err(p) => {
+                rep.violation("recreate-while-previous-alive:open-panicked", json!({"panic": p.msg}));
+                break;
+            }
+        }
+        max_ms = max_ms.max(el);
+    }
     rep.note("recreate_max_open_ms", json!(max_ms as u64));
     rep.note("recreate_open_retries", json!(hooks::OPEN_RETRIES.load(Ordering::SeqCst) - retries0));
     let _ = std::fs::remove_dir_all(&dir);
